@@ -51,6 +51,11 @@ fn tally(sh: &Shape, from: u64, granted: bool) -> (bool, bool) {
 /// the shape fixes role (Candidate / PreCandidate), term and recorded votes.
 pub fn voteresp_step(s: &mut Src, sh: &Shape, from: u64, resp_pre: bool, reject: bool, mterm: u64) {
     let (mut r, g) = mk_raft(s, sh);
+    // leftovers of an earlier leadership of this node (C10 / C13: a new term starts afresh)
+    let mut pv = r.verif_private();
+    pv.uncommitted_size = s.below(1 << 20) as usize;
+    pv.last_log_tail_index = s.below(8);
+    r.verif_set_private(&pv);
     let t = if resp_pre {
         MessageType::MsgRequestPreVoteResponse
     } else {
@@ -73,6 +78,11 @@ pub fn voteresp_step(s: &mut Src, sh: &Shape, from: u64, resp_pre: bool, reject:
         assert!(r.raft_log.last_index() == g.last() + 1 && r.raft_log.last_term() == term0);
         assert!(r.pending_conf_index == g.last());
         assert!(r.prs().get(ME).unwrap().matched == g.persisted);
+        // the uncommitted-size budget starts from zero (the empty entry costs nothing) and the
+        // entries inherited from earlier terms - never charged - are exempt from refunds
+        let pv1 = r.verif_private();
+        assert!(pv1.uncommitted_size == 0, "new leader inherits a stale uncommitted-size count");
+        assert!(pv1.last_log_tail_index == g.last(), "refund exemption must cover exactly the inherited log");
         // a new leader knows nothing about what its peers hold
         let (ids, n) = sh.ids();
         let mut i = 0;
